@@ -171,9 +171,19 @@ def run_known_replay(k):
             if ok and 'bad_rc' in rp: ok = int(m.group(1)) == rp['bad_rc']
             if ok and 'bad_log' in rp: ok = rp['bad_log'] in lines[rp['index']]
             return ok, lines[rp['index']][:300]
-        if kind == 'sqfvm':
-            import vmreplay
-            return vmreplay.run(rp)
+        if kind == 'sqf':
+            # a script run by the CLI of a sqfvm built from the current tree; reproduced when rp['bad'] occurs in the output
+            exe = build_sqfvm()
+            if not exe: return False, 'sqfvm could not be built from the current tree'
+            with tempfile.NamedTemporaryFile('w', suffix='.sqf', delete=False, dir=SCRATCH if os.path.isdir(SCRATCH) else None) as f:
+                f.write(rp['code']); path = f.name
+            try:
+                p = subprocess.run([exe, '-a', '--no-execute-print', '--no-load-executable-dir', '--max-runtime', '5000', '--input-sqf', path], capture_output=True, timeout=60)
+            finally:
+                os.unlink(path)
+            out = (p.stdout + p.stderr).decode('utf-8', 'replace')
+            line = [l for l in out.split('\n') if 'DIAG_LOG' in l]
+            return rp['bad'] in out.replace(' ', ''), (line[-1].strip() if line else out[-200:])[:200]
     except subprocess.TimeoutExpired:
         return True, 'timeout (hang)'
     return False, 'unknown replay kind'
